@@ -20,6 +20,19 @@ def _has_rule(tr):
     return lambda call: any(py2lean.match(r[0], call, {}) for r in tr.r.expr)
 
 
+def _with_temps_fallback(fn, tr, run, node):
+    """translate the normalised source; if the vocabulary has no word for it, once more with single-use local
+    temporaries replaced by their definitions (`first = xs[0]; np.allclose(xs, first)` is `np.allclose(xs, xs[0])`)"""
+    from . import py2lean_norm
+    try:
+        return run(node)
+    except py2lean.Untranslatable as first:
+        try:
+            return run(py2lean_norm.normalised(fn, _has_rule(tr), inline_temps=True))
+        except py2lean.Untranslatable:
+            raise first
+
+
 class NormTranslator(py2lean.Translator):
     """py2lean.Translator on the NORMALISED source (harness/py2lean_norm.py): module-level helper functions the
     vocabulary has no word for are inlined at their call sites, loops over literal tuples unrolled, keyword arguments
@@ -32,7 +45,7 @@ class NormTranslator(py2lean.Translator):
         missing = [p for p in params if p not in arg_names]
         if missing or node.args.vararg or node.args.kwarg or node.args.kwonlyargs:
             raise py2lean.Untranslatable("signature of %s changed: %s" % (node.name, ast.unparse(node.args)))
-        return self.block(list(node.body), dict(arg_names), ind)
+        return _with_temps_fallback(fn, self, lambda nd: self.block(list(nd.body), dict(arg_names), ind), node)
 
 
 def rules(direction):
@@ -182,7 +195,7 @@ class EntryTranslator(py2lean.Translator):
         used = {n.id for n in ast.walk(node) if isinstance(n, ast.Name)}
         if missing or node.args.vararg or node.args.kwonlyargs or (kw is not None and kw in used):
             raise py2lean.Untranslatable("signature of %s changed: %s" % (node.name, ast.unparse(node.args)))
-        return self.block(list(node.body), dict(arg_names), ind)
+        return _with_temps_fallback(fn, self, lambda nd: self.block(list(nd.body), dict(arg_names), ind), node)
 
     # -------------------------------------------------------------- expressions
     def expr(self, node, scope):
@@ -595,7 +608,8 @@ class SrcTranslator(P2.Translator2M):
         for p in params:
             if p not in arg_names and not (p in allow_unused and p not in mentioned):
                 raise P2.Untranslatable("signature of %s changed: %s" % (node.name, ast.unparse(node.args)))
-        return self.block(list(node.body), dict(arg_names), ind, self.top_ctx())
+        return _with_temps_fallback(fn, self, lambda nd: self.block(list(nd.body), dict(arg_names), ind, self.top_ctx()),
+                                    node)
 
 
 def _float3(n, d):
